@@ -239,3 +239,92 @@ def nines_case(r):
         x = float("%d999999999999.%s" % (r.randint(1, 99), r.choice(["6", "96"])))
     t = parse_dbl(dbl_token(x))
     return (r.random() < 0.3, t[2], t[3]), r.choice([0, 0, 1, 1, 2, 3, 4, -1, -9, -3])
+
+
+# ---- systematic neighbourhood of the powers of two (both tiers; deterministic) -----------------------------------------------------
+# For every binade boundary 2^k of a spread of k: decimal texts of 2^k + f*ulp (ulp of the binade above) and 2^k - f*ulp_below
+# (the binade below, where the ulp halves) for f = just below 1/2, exactly 1/2, just above 1/2 (by one unit in the N-th
+# significant digit, N = 17..40, and by a single non-zero digit 1..37 places beyond the exact tie), 3/4, and 1 - epsilon.
+# Seeded changes C10_5 (normalisation loop ends at > 2^52 instead of >= 2^52: texts strictly between 2^k and the next double, at or
+# past the half-way point, came out as 2^k) and C10_6 (tail scan of is_zero stops one limb early: tie + one far digit).
+
+POW2_KS = sorted(set(list(range(-60, 61)) + [-1074, -1073, -1072, -1060, -1030, -1023, -1022, -1021, -1000, -900, -768, -537, -400,
+                                             -300, -200, -128, -100, -64, 64, 100, 128, 200, 300, 400, 537, 768, 900, 1000, 1021, 1022, 1023]))
+
+
+def _exact_dec(fr):
+    """positive Fraction with a denominator 2^a -> (digit string, scale) of its exact decimal expansion (no trailing zeros past the point)"""
+    a = fr.denominator.bit_length() - 1
+    return str(fr.numerator * 5 ** a), a
+
+
+def _n_digits(fr, n, up):
+    """fr cut to n significant digits, towards zero (up = 0) or that + 1 unit in the last place (up = 1) -> (digits, scale)"""
+    e = floor_log10(fr)
+    scale = n - 1 - e
+    v = fr * Fraction(10) ** scale
+    q = v.numerator // v.denominator
+    return str(q + up), scale
+
+
+def pow2_neighbourhood(level=2):
+    """(digits, scale, tag) triples; level 2 = the full set (family todbl), 1 = the reduced set (family numb)"""
+    pads_one = (0, 8, 17, 18, 19, 27, 36) if level == 2 else (18, 27)
+    pads_nine = (1, 18, 30) if level == 2 else (19,)
+    ns_tie = (17, 18, 21, 30, 40) if level == 2 else (17, 21)
+    ns_34 = (17, 25, 40) if level == 2 else (20,)
+    ns_eps = (17, 25, 40) if level == 2 else (17,)
+    for k in POW2_KS:
+        base = Fraction(2) ** k
+        ulp_up = Fraction(2) ** (max(k, -1022) - 52)
+        ulp_dn = Fraction(2) ** (max(k - 1, -1022) - 52)
+        d, s = _exact_dec(base)
+        yield d, s, "2^%d" % k
+        for sign, ulp in ((1, ulp_up), (-1, ulp_dn)):
+            tie = base + sign * ulp / 2
+            if tie <= 0:
+                continue
+            d, s = _exact_dec(tie)
+            yield d, s, "tie"
+            for z in pads_one:
+                if len(d) + z + 1 <= 2048:
+                    yield d + "0" * z + "1", s + z + 1, "tie+far digit"
+            for z in pads_nine:
+                if len(d) + z <= 2048:
+                    yield str(int(d) - 1).rjust(len(d), "0") + "9" * z, s + z, "tie-far"
+            for n in ns_tie:
+                if n < len(d.lstrip("0")):
+                    for up in (0, 1):
+                        dd, ss = _n_digits(tie, n, up)
+                        yield dd, ss, "tie cut to %d digits %+d" % (n, up)
+            t34 = base + sign * ulp * 3 / 4
+            d, s = _exact_dec(t34)
+            yield d, s, "3/4"
+            for n in ns_34:
+                if n < len(d.lstrip("0")):
+                    for up in (0, 1):
+                        dd, ss = _n_digits(t34, n, up)
+                        yield dd, ss, "3/4 cut"
+            nxt = base + sign * ulp            # the neighbouring double; 1 - epsilon = one unit in the n-th digit short of it
+            if nxt > 0:
+                d, s = _exact_dec(nxt)
+                yield d, s, "neighbour"
+                for n in ns_eps:
+                    dd, ss = _n_digits(nxt, n, 0)
+                    q = int(dd)
+                    exact = Fraction(q) / Fraction(10) ** ss == nxt
+                    if sign > 0:
+                        yield str(q - 1 if exact else q), ss, "1-eps"
+                    else:
+                        yield str(q + 1), ss, "1-eps"
+
+
+def text_of_digits(d, s):
+    """a decimal text for digits * 10^-scale: plain when that is short, otherwise mantissa and exponent"""
+    if s <= 0:
+        return d + "0" * (-s) if -s <= 25 else d + "e" + str(-s)
+    if s < len(d):
+        return d[:-s] + "." + d[-s:]
+    if s - len(d) <= 25:
+        return "0." + "0" * (s - len(d)) + d
+    return d[0] + "." + d[1:] + "e-" + str(s - len(d) + 1) if len(d) > 1 else d + "e-" + str(s)
